@@ -47,6 +47,8 @@ for a in areas:
         shutil.copy(p, f"{d}/patch.diff")
         n = f"/tmp/eq-{a}/notes{k}.md"
         if os.path.exists(n): shutil.copy(n, f"{d}/notes.md")
+        rows = json.load(open(outp))["rows"] if os.path.exists(outp) else []  # other areas may run side by side
+        row["harness"] = subprocess.run("git -C /verif rev-parse --short HEAD", shell=True, capture_output=True, text=True).stdout.strip()
         rows = [r for r in rows if r["id"] != row["id"]] + [row]
         json.dump({"rows": rows}, open(outp, "w"), indent=1)
 sh(f"git -C /repo worktree remove --force {EQ}/repo"); shutil.rmtree(EQ, ignore_errors=True)
